@@ -157,7 +157,6 @@ Section TightMain.
       + intros n. apply tbound_map.
         eapply tbound_weaken; [| | | |apply (cpush_loop_tight alpha beta 0 0 0 1 rd n Hrd)]; try lia; auto.
         * destruct (n =? 0); lia.
-        * unfold U32; lia.
     - (* seq *)
       cbn [cdec wire_pos S0 F0 S1]. cbn [fam] in Hfam.
       destruct (mem_zst (key_ty k t')) eqn:Ez.
@@ -221,7 +220,7 @@ Section TightMain.
       assert (alpha * N.max 4096 (sz t') <= alpha * (CHUNK + 4096 + sz t')) by (apply N.mul_le_mono_l; lia).
       destruct (is_u8 t') eqn:Eu; [|lia].
       assert (Hz : mem_zst t' = false) by (destruct t' as [[[] []| | | | | |]| | | | | | | |]; try discriminate; reflexivity).
-      destruct (Hsz t' Hz) as [Hpos _].
+      pose proof (Hsz t' Hz) as Hpos.
       assert (alpha * 1 <= alpha * sz t') by (apply N.mul_le_mono_l; lia). lia.
     - (* array *)
       destruct IH as (I1 & I2 & I3).
